@@ -428,8 +428,28 @@ constexpr MagRepresentationOrError<T> root(T x, std::uintmax_t n) {
     return {MagRepresentationOutcome::OK, static_cast<T>(lo_diff < hi_diff ? lo : hi)};
 }
 
+// Whether `base` keeps its value when converted to `Widen<T>`.
+//
+// This can only fail for integral bases: a prime above 2^63 does not fit in `std::intmax_t`, which is
+// the type we use to compute values for every signed integral `T`.
+template <typename T, typename B, typename Enable = void>
+struct BaseFitsInWidened {
+    constexpr bool operator()(B) const { return true; }
+};
+template <typename T, typename B>
+struct BaseFitsInWidened<
+    T,
+    B,
+    std::enable_if_t<stdx::conjunction<std::is_integral<B>, std::is_integral<Widen<T>>>::value>> {
+    constexpr bool operator()(B base) const { return stdx::in_range<Widen<T>>(base); }
+};
+
 template <typename T, std::intmax_t N, std::uintmax_t D, typename B>
 constexpr MagRepresentationOrError<Widen<T>> base_power_value(B base) {
+    if (!BaseFitsInWidened<T, B>{}(base)) {
+        return {MagRepresentationOutcome::ERR_CANNOT_FIT};
+    }
+
     if (N < 0) {
         const auto inverse_result = base_power_value<T, -N, D>(base);
         if (inverse_result.outcome != MagRepresentationOutcome::OK) {
